@@ -11,6 +11,9 @@ mod shrink;
 mod w1exec;
 mod w1gen;
 mod w1ops;
+mod w3exec;
+mod w3gen;
+mod w3ops;
 
 use crate::core::Tier;
 
